@@ -18,13 +18,13 @@ import (
 const FailureFullName = protoreflect.FullName("temporal.api.failure.v1.Failure")
 
 type StringOcc struct {
-	FD             protoreflect.FieldDescriptor
-	Path           string
-	IsFailureMsg   bool // the field is Failure.message
-	FailureDepth   int  // 1 = outermost failure of a chain
-	Index          int  // ordinal among all string occurrences of the message
-	FailureMsgSeq  int  // ordinal among failure-message occurrences (-1 otherwise)
-	Value          []byte
+	FD            protoreflect.FieldDescriptor
+	Path          string
+	IsFailureMsg  bool // the field is Failure.message
+	FailureDepth  int  // 1 = outermost failure of a chain
+	Index         int  // ordinal among all string occurrences of the message
+	FailureMsgSeq int  // ordinal among failure-message occurrences (-1 otherwise)
+	Value         []byte
 }
 
 type wireWalker struct {
